@@ -103,6 +103,18 @@ def tokOp (tolerant : Bool) (ps : PState) (s : Str) (st : RState) (op : String) 
     let sp := spaceRun s st.pos
     ({ st with pos := st.pos + sp.length }, s!"{showStr sp} {st.pos} {st.pos + sp.length}")
   | "C", _ => (st, toString st.pos)
+  -- `peek_token_or_none`: `None` instead of the end-of-stream exception
+  | "O", _ =>
+    match peekTok tolerant ps s st.pos with
+    | .tok t => ({ st with toks := st.toks ++ [t] }, showTok t)
+    | .eos _ => (st, "None")
+    | r => (st, showPeek r)
+  -- `peek_space_chars`: what `skip_space_chars` would report, without moving
+  | "W", _ =>
+    let sp := spaceRun s st.pos
+    (st, s!"{showStr sp} {st.pos} {st.pos + sp.length}")
+  -- `move_to_pos_chars(n)`
+  | "J", some n => ({ st with pos := n }, "ok")
   | "K", some n => if st.pos ≥ s.length then (st, "EOS") else (st, showStr (slice s st.pos (st.pos + n)))
   | "X", some n => if st.pos ≥ s.length then (st, "EOS") else
       ({ st with pos := min (st.pos + n) s.length }, showStr (slice s st.pos (st.pos + n)))
